@@ -93,6 +93,8 @@ class _StdApi:
         # dis has these from 3.12 on
         self.hasarg = getattr(opc, "hasarg", [])
         self.hasexc = getattr(opc, "hasexc", [])
+        # dis has this from 3.13 on: every jump opcode
+        self.hasjump = sorted(set(opc.hasjrel) | set(opc.hasjabs))
         self.opmap = opc.opmap
         self.opname = opc.opname
         self.EXTENDED_ARG = opc.EXTENDED_ARG
@@ -301,6 +303,7 @@ hasfree = _std_api.hasfree
 hasnargs = _std_api.hasnargs
 hasarg = _std_api.hasarg
 hasexc = _std_api.hasexc
+hasjump = _std_api.hasjump
 opmap = _std_api.opmap
 opname = _std_api.opname
 EXTENDED_ARG = _std_api.EXTENDED_ARG
